@@ -413,6 +413,35 @@ def api_stream(ck, qr, numpy):
                         "non-secular elements in the eigenbasis", {"sites": nmol, "T": T}, float(worst / scs))
         except Exception as e:
             ck.fail("raises:secular:recalculate-false", "raised %r" % (e,), {"sites": nmol})
+        # ---- a secular tensor requested in operator form: what comes back is secular (after conversion), or the request is refused -------
+        for td_ in (False, True):
+            inpo = {"sites": nmol, "T": T, "request": "standard_Redfield, secular_relaxation=True, as_operators=True, time_dependent=%s" % td_}
+            ck.case(("api-secular-operators", s, td_), nontrivial=True, kind="api", theory="standard_Redfield")
+            try:
+                RTo, ho_ = agg.get_RelaxationTensor(ta, relaxation_theory="standard_Redfield", secular_relaxation=True, as_operators=True, time_dependent=td_)
+            except Exception:
+                ck.dist["secular + operator form: refused"] += 1
+                continue
+            try:
+                if getattr(RTo, "as_operators", False):
+                    RTo.convert_2_tensor()
+                with eigenbasis_of(ho_):
+                    dso = numpy.array(RTo.data)
+                if dso.ndim == 5:
+                    dso = dso[-1]
+                n_ = dso.shape[0]; sco = max(1e-300, float(numpy.abs(dso).max())); worst = 0.0
+                for a in range(n_):
+                    for b in range(n_):
+                        for c in range(n_):
+                            for d in range(n_):
+                                if not ((a == b and c == d) or (a == c and b == d)):
+                                    worst = max(worst, abs(dso[a, b, c, d]))
+                if worst > 1e-9 * sco:
+                    ck.fail("secular:operator-form-request", "a tensor requested with secular_relaxation=True and as_operators=True has non-secular elements in the "
+                            "eigenbasis", inpo, float(worst / sco))
+                identities(numpy, dso, "secular tensor requested in operator form", ck, inpo, "secular-identities:operator-form-request")
+            except Exception as e:
+                ck.fail("raises:secular:operator-form-request", "raised %r" % (e,), inpo)
         # quick: the Foerster, combined, cut-off and non-equilibrium cases in every run, five of the others at random
         for theory, opts in (cases if not ck.quick else rng.sample(cases[:5] + [cases[6]] + cases[8:10], 5) + [cases[5], cases[7], cases[10], cases[11 + s % 2]]):
             inp = {"sites": nmol, "theory": theory, "options": {k: v for k, v in opts.items()}, "T": T}
